@@ -505,7 +505,7 @@ theorem emit_mul_form (b j r : Rat) (hj : j ≠ 0) : b * (1 - j * r) = emit j r 
   grind
 
 /-- … and an accepted value comes from SOME draw in `[0, 1]`: for `b ≠ 0`, `j ≠ 0` an accepted
-    `w` is `emit j r b` for `r = (b - w) / (b * j)`, which lies in `[0, 1]` - acceptance admits
+    `w` is `emit j r b` for `r = (b - w) / (b * j)`, which lies in `[0, 1]` - acceptance lets in
     nothing but points of the model's own range (closed at the far end, as the statement says) -/
 theorem accepted_is_some_draw (b j w : Rat) (hb : 0 < b) (hj : j ≠ 0)
     (h : jitAccept 0 b j w = true) :
@@ -784,7 +784,7 @@ example : (match backoff 3 (fun _ => 0)
     ({ start := 1, stop := 10, factor := 2, count := .dflt, jitter := 0 } : Params Rat) with
     | .fuelOut => true | _ => false) = true := by decide +kernel
 
--- acceptance: the delay 8 with jitter 1/2 admits exactly [4, 8]; with jitter -1 exactly [8, 16]
+-- acceptance: the delay 8 with jitter 1/2 allows exactly [4, 8]; with jitter -1 exactly [8, 16]
 example : jitAccept 0 8 (1/2) 6 = true ∧ jitAccept 0 8 (1/2) 4 = true ∧ jitAccept 0 8 (1/2) 8 = true ∧
     jitAccept 0 8 (1/2) 3 = false ∧ jitAccept 0 8 (1/2) 9 = false ∧
     jitAccept 0 8 (-1) 16 = true ∧ jitAccept 0 8 (-1) 7 = false := by decide +kernel
